@@ -98,7 +98,8 @@ def run(run):
         run.floor(floor_name, total, floor)
 
     def is_self_rewrite(n):
-        return n.get("k") == "Assign" and n["l"].get("k") == "Deref" and T.peel(n["l"]).get("k") in ("Var", "Upvar") and F.ty(n["l"]).endswith("expression::Expression")
+        ty = F.ty(n["l"]) if n.get("k") == "Assign" else ""
+        return n.get("k") == "Assign" and n["l"].get("k") == "Deref" and T.peel(n["l"]).get("k") in ("Var", "Upvar") and (ty.endswith("expression::Expression") or ty.endswith("expression::Expression>"))
 
     def is_assign_ctor(n):
         return n.get("k") == "Adt" and n.get("adt", "").endswith("def::Def") and n.get("v") == "Assign"
